@@ -38,6 +38,7 @@ class Case:
     def __init__(self, node, cid=""):
         self.node = node
         self.cid = cid
+        node.is_root = True
         self.gf, self.src = build.build(node)
         self.kinds = node.kinds()
 
@@ -181,6 +182,33 @@ def args_equal(a, b):
     return tree.tcompare(ta, tb, lambda x, y: bool(np.array_equal(np.asarray(x), np.asarray(y)))) is None
 
 
+# ------------------------------------------------------------------ switch volatility
+# The library treats an UnknownChange tag on a switch index as a request to run the selected
+# branch afresh (Switch.edit: "generate a fresh trace for the new branch"), which properties
+# C05/C08 name as the documented exception.  Choices inside such a branch are then *new random
+# choices*: clauses about "previous values elsewhere" and "weight = score change when no new
+# choice is introduced" do not speak about them.
+
+
+def volatile_paths(case, tags, constrained):
+    """Set of choice paths that an edit with these argument tags may legitimately redraw."""
+    node = case.node
+    vol = set()
+    root_trigger = False
+    if isinstance(node, ast.Switch) or isinstance(node, ast.OrElse):
+        t0 = None if tags is None else (True if tags == "nochange" else bool(tags[0]))
+        root_trigger = not t0  # idx / flag argument tagged UnknownChange
+    elif isinstance(node, ast.Mix):
+        # the component index is the return value of categorical @ "mixture_component": its tag
+        # is UnknownChange exactly when that address is constrained
+        root_trigger = any(p == ("mixture_component",) for p in constrained)
+    for s in node.sites():
+        if s.switchy == "nested" or (s.switchy == "root" and root_trigger):
+            for p, _ in s.paths():
+                vol.add(p)
+    return vol
+
+
 # ------------------------------------------------------------------ operations
 
 
@@ -286,14 +314,18 @@ def op_update(case, rec, k, constraint_vals, new_args=None, tags=None, form="sca
     except Exception:
         pass
     eff = effective_constraint(constraint_vals, masks)
+    vol = volatile_paths(case, tags, eff)
     old_live, new_live = rec.live(), new.live()
     for p, v in eff.items():
         if p in new_live and not _same_value(new.assign[p], v):
             issues.append(Issue("upd.value", f"constrained {p}={_d(v)} but new trace holds {_d(new.assign[p])}"))
     for p in old_live & new_live:
-        if p not in eff and not _same_value(new.assign[p], rec.assign[p]):
+        if p not in eff and p not in vol and not _same_value(new.assign[p], rec.assign[p]):
             issues.append(Issue("upd.unchanged", f"unconstrained {p} changed {_d(rec.assign[p])} -> {_d(new.assign[p])}"))
-    introduces = bool(new_live - old_live)
+    # new random choices: live now, not fixed by the constraint, and either absent before or
+    # inside a branch the library re-ran
+    introduces = any((p not in old_live or p in vol) and p not in eff for p in new_live)
+    new.volatile = vol
     exp_w = new.env.score() - rec.env.score()
     if not introduces and np.isfinite(exp_w):
         if not close(w, exp_w, terms=max(1, len(new_live) + len(old_live))):
@@ -310,12 +342,16 @@ def op_update(case, rec, k, constraint_vals, new_args=None, tags=None, form="sca
     if dex is not None:
         dvalid = obs.valid_assignment(dex)
         for p in eff:
+            if p in vol:
+                continue
             if p in old_live and p in new_live:
                 if p not in dvalid:
                     issues.append(Issue("upd.discard", f"overwritten {p} missing from the backward constraint", "missing"))
                 elif not _same_value(dvalid[p], rec.assign[p]):
                     issues.append(Issue("upd.discard", f"backward constraint at {p} is {_d(dvalid[p])}, previous value {_d(rec.assign[p])}", "wrong-value"))
         for p, v in dvalid.items():
+            if p in vol:
+                continue
             if p not in old_live:
                 issues.append(Issue("upd.discard", f"backward constraint holds {p} which the old trace did not", "spurious"))
             elif not (p in eff or p not in new_live):
@@ -547,6 +583,8 @@ def op_request(case, rec, k, request, constrained, may_change, new_args=None, ta
     if new is None:
         return None, w, rd, bwd, issues
     old_live, new_live = rec.live(), new.live()
+    vol = volatile_paths(case, tags, constrained)
+    new.volatile = vol
     for p, v in constrained.items():
         if p in new_live and not _same_value(new.assign[p], v):
             issues.append(Issue("req.value", f"{what}: constrained {p}={_d(v)} but new trace holds {_d(new.assign[p])}"))
@@ -556,10 +594,11 @@ def op_request(case, rec, k, request, constrained, may_change, new_args=None, ta
             continue
         if not _same_value(new.assign[p], rec.assign[p]):
             nchanged += 1
-            if not may_change(p):
+            if not may_change(p) and p not in vol:
                 issues.append(Issue("req.unchanged", f"{what}: {p} changed {_d(rec.assign[p])} -> {_d(new.assign[p])} although the request does not address it"))
     exp_w = new.env.score() - rec.env.score()
-    if not (new_live - old_live) and np.isfinite(exp_w):
+    introduces = any((p not in old_live or p in vol) and p not in constrained for p in new_live)
+    if not introduces and np.isfinite(exp_w):
         if not close(w, exp_w, terms=max(1, len(new_live) + len(old_live))):
             issues.append(Issue("req.weight", f"{what}: weight {w} vs new score - old score {exp_w}"))
     new.changed = nchanged
